@@ -124,7 +124,8 @@ type Run struct {
 	nconfirm     int
 }
 
-// ConfirmFresh makes Judge re-run every failing case in a fresh child process
+// ConfirmFresh (the default since round 5; the call remains where a lane's
+// reason for it is worth stating) makes Judge re-run every failing case in a fresh child process
 // (the same test binary in replay mode) before it counts. For lanes whose
 // property is a statement about one case: code under test that keeps state across
 // calls in one process can make a case fail only because of the cases before it.
@@ -219,6 +220,8 @@ func Start(t testing.TB, prop, lane string) *Run {
 		known:     map[string]Finding{},
 		knownHit:  map[string]bool{},
 		sampleCap: 4,
+		// on for every lane (see ConfirmFresh): it costs nothing until a case fails
+		confirmFresh: os.Getenv("VERIF_NO_CONFIRM") != "1",
 	}
 	outDir := os.Getenv("VERIF_OUT")
 	if outDir == "" {
